@@ -40,13 +40,19 @@ class C11(framework.PropertyCheck):
                             return t
                     return 'a'
                 a, b, c = operand(), operand(), operand()
-                k = rng.choice(['at', 'scope', 'group', 'bit', 'slice', 'quote', 'qq', 'unq', 'unqs', 'brackets'])
+                k = rng.choice(['at', 'scope', 'group', 'bit', 'slice', 'quote', 'qq', 'unq', 'unqs', 'brackets', 'symhead'])
+                S = rng.choice(['QUOTE', 'QUASIQUOTE', 'UNQUOTE', 'UNQUOTE_SPLICE', 'REL_EVAL', 'Quote', 'quot', 'unquote-splice'])
                 s = rng.choice(['a', 'foo', 'sig.x', 'v<1>', 'iff', 'T', 'F', 'tr', 'Fa'])     # operator names are not signal names: ~if keeps the symbol
                 pair = {'at': (f'{a}@{b}', f'(reval {a} {b})'), 'scope': (f'~{s}', f'(resolve-scope {s})'), 'group': ((f'#{s}x', f'(resolve-group {s}x)') if rng.random() < 0.5 or s in ('tr',) else (f'#{s}', f'(resolve-group {s})')),
                         'bit': (f'{a}[{b}]', f'(slice {a} {b})'), 'slice': (f'{a}[{b} : {c}]', f'(slice {a} {b} {c})'), 'quote': (f"'{a}", f'(quote {a})'),
                         'qq': (f'`{a}', f'(quasiquote {a})'), 'unq': (f'`(x ,{a})', None), 'unqs': (f'`(x ,@{a})', None),
-                        'brackets': (f'({a} {b})', f'[{a} {b}]', '{' + f'{a} {b}' + '}')}[k]
+                        'brackets': (f'({a} {b})', f'[{a} {b}]', '{' + f'{a} {b}' + '}'),
+                        # a list headed by a user symbol that is spelled like one of the interpreter's own operator names is an ordinary list
+                        'symhead': (f'({S} {a})', f'[{S} {a}]')}[k]
                 yield {'k': 'short', 'kind': k, 'texts': [t for t in pair if t is not None]}
+                if k == 'symhead':
+                    # ... and prints as a list that reads back as itself
+                    yield {'k': 'rt', 'src': rng.choice([f'({S} {a})', f'(do ({S} {a}) ({S}))', f"'({S} x)"])}
             elif i % 500 == 13:
                 # the other writer of WAL text: wawk -o (statements far longer than a text line, blanks inside strings)
                 words = ' '.join(rng.choice(['alpha', 'beta', 'gamma', 'delta', 'x', 'yz']) for _ in range(rng.randint(25, 45)))
